@@ -45,7 +45,9 @@ def decode_signature(sel, cur):
         if kind in ("var_pos", "var_kw"):
             d = "none"
         else:
-            d = DEFAULTS[rd(sel, cur, len(DEFAULTS) if (i == 0 or THOROUGH) else 3)]
+            # every default kind for the first parameter; for the others in the thorough tier up to 2 parameters
+            # (3 parameters with 10 default kinds each are 80 000 signatures per context and harness: hours)
+            d = DEFAULTS[rd(sel, cur, len(DEFAULTS) if (i == 0 or (THOROUGH and n <= 2)) else 3)]
         if kind in ("pos_only", "pos_or_kw"):
             if need_default and d == "none":
                 raise OutOfRange  # non-default argument follows default argument
